@@ -1,10 +1,14 @@
 (* C09 -- move notation.  PARTIAL.
    Proved on the model: the shape of the printed string; square names are injective; in Chess960 mode the string
    determines the move (any position, any three-field move with squares on the board and a promotion piece that has
-   a letter).  Standard mode on standard geometry (castling rewritten to the g/c file cannot collide with a king step)
-   and the round trip through the parser are decided by the correspondence run on all legal moves of generated positions. *)
+   a letter).  For every move the generator emits on a position passing `good_pos_b` (proofs/NotationMoves.v): the
+   printed string is the specification's notation `UciSpec.move_str` of the decoded move (absolute origin and
+   destination, promotion letter, castling as e1g1/e1c1/e8g8/e8c8 in standard mode and king-takes-rook in Chess960
+   mode); distinct generated moves print differently (standard mode: under `std_geo`, a side that may castle has its
+   king on the e-file, so the rewritten castling target cannot collide with a king step); the move parser resolves the
+   printed string to the same move.  That the generated moves are the rules' legal moves is C01. *)
 From Coq Require Import NArith ZArith List Bool.
-From Rawr Require Import Consts Bits Magic Position MoveGen MakeMove Fen NotationFacts.
+From Rawr Require Import Consts Bits Magic Position MoveGen MakeMove MakeStages Fen Uci Rules Abs UciSpec NotationFacts NotationMoves.
 Import ListNotations.
 Local Open Scope N_scope.
 
@@ -25,6 +29,15 @@ Theorem C09_to_uci_frc_injective : forall p m1 m2,
   to_uci p m1 = to_uci p m2 -> m1 = m2.
 Proof. exact to_uci_frc_inj. Qed.
 
+Theorem C09_printed_is_the_specified_notation : forall p, good_pos_b p = true -> std_geo p ->
+  (forall m, In m (legal_moves p) -> to_uci p m = move_str (is_frc p) (abs_state p) (dec p m))
+  /\ (forall m1 m2, In m1 (legal_moves p) -> In m2 (legal_moves p) -> to_uci p m1 = to_uci p m2 -> m1 = m2)
+  /\ (forall m, In m (legal_moves p) -> find_move p (to_uci p m) = Some m).
+Proof. exact good_pos_notation. Qed.
+Example C09_premises_startpos : good_pos_b startpos = true /\ std_geo startpos.
+Proof. split; [vm_compute; reflexivity|intros _ _; vm_compute; reflexivity]. Qed.
+
 Print Assumptions C09_to_uci_shape.
 Print Assumptions C09_square_names_injective.
 Print Assumptions C09_to_uci_frc_injective.
+Print Assumptions C09_printed_is_the_specified_notation.
